@@ -64,6 +64,7 @@ export const TEXT_PROBES = [
   { id: "conditional-distributes-through-parentheses", text: "type G<T> = (T) extends number ? T : never;\ntype X = G<string | number>;", cases: [[1, "Y"], ["a", "N"]] },
   { id: "conditional-distributes-over-named-union", text: 'type U = string | number;\ntype F<T> = T extends string ? "s" : "n";\ntype X = F<U>;', cases: [["s", "Y"], ["n", "Y"]] },
   { id: "conditional-distributes-over-boolean", text: 'type G<T> = T extends true ? "t" : "f";\ntype X = G<boolean>;', cases: [["t", "Y"], ["f", "Y"]] },
+  { id: "conditional-over-an-alias-of-never", text: 'type Z = never;\ntype G<T> = T extends number ? T[] : "no";\ntype X = { v?: G<Z> };', cases: [[{}, "Y"], [{ v: [] }, "N"], [{ v: "no" }, "N"]] },
   { id: "conditional-over-never", text: 'type F<T> = T extends string ? "s" : "n";\ntype X = F<never>;', cases: [["s", "N"], ["n", "N"]] },
   { id: "interface-declarations-merge", text: "interface I { a: string }\ninterface I { b: number }\ntype X = I;", cases: [[{ a: "x", b: 1 }, "Y"], [{ b: 1 }, "N"], [{ a: "x" }, "N"]] },
   { id: "type-parameter-does-not-capture", text: "type ID = number;\ntype Item = { id: ID };\ntype Page<ID> = { items: Item[]; cursor: ID };\ntype X = Page<string>;", cases: [[{ items: [{ id: 1 }], cursor: "c" }, "Y"], [{ items: [{ id: "s" }], cursor: "c" }, "N"]] },
